@@ -43,7 +43,7 @@ Print Assumptions C04_zip_dir_total.
 Theorem C04_zip_first_dir_last : forall ws z d p,
   run_zip ws = Some z -> run_dir ws = Some d ->
   lookup p z = first_write p ws /\ lookup p d = last_write p ws.
-Proof. intros ws z d p Hz Hd. split; [exact (zip_first_wins ws z p Hz)|exact (dir_last_wins ws d p Hd)]. Qed.
+Proof. exact zip_first_dir_last. Qed.
 Print Assumptions C04_zip_first_dir_last.
 
 (** the write plan of ModelWriter for any space tree whose entry names are
@@ -62,3 +62,30 @@ Theorem C04_writer_zip_eq_dir : forall spaces pickled (ws : list (path * content
   run_dir ws = Some ws /\ run_zip ws = Some ws.
 Proof. exact writer_zip_eq_dir. Qed.
 Print Assumptions C04_writer_zip_eq_dir.
+
+(** ---- statement-level codec (Serial/Codec.v) -------------------------------- *)
+From MX Require Import Serial.Codec Serial.CodecProofs.
+
+(** for every well-formed description (any space tree, bases anywhere in the
+    model written relative to the parent, lambda/def cells with their flags and
+    documentation, the four kinds of references with their modes), reading the
+    statements the writer emits gives the description back *)
+Theorem C04_codec_roundtrip : forall m : modelD, wf_model m = true -> decode (encode m) = Some m.
+Proof. exact codec_roundtrip. Qed.
+Print Assumptions C04_codec_roundtrip.
+
+(** write - read - write chains: the second write emits the same files *)
+Theorem C04_codec_chain : forall m : modelD, wf_model m = true ->
+  match decode (encode m) with Some m' => encode m' = encode m | None => False end.
+Proof. exact codec_chain. Qed.
+Print Assumptions C04_codec_chain.
+
+(** ---- documentation strings (Serial/Lexer.v) --------------------------------- *)
+From MX Require Import Serial.Lexer Serial.LexerProofs.
+
+(** a documentation string without backslash, carriage return or three
+    consecutive double quotes and not ending in a double quote, written between
+    triple double quotes, is read back unchanged *)
+Theorem C04_doc_lex : forall d : string, safe_doc d = true -> lex_triple (q3 ++ d ++ q3) = LexOk d.
+Proof. exact doc_lex. Qed.
+Print Assumptions C04_doc_lex.
